@@ -291,8 +291,14 @@ def _sched_shard(shard):
                 hist["step_signature_differs_on_replay(hidden state outside functools memo tables)"] = hist.get("step_signature_differs_on_replay(hidden state outside functools memo tables)", 0) + 1
         return out, steps, by
 
+    if gran == "opcode":
+        # CPython 3.12 delivers no opcode events to the first thread that ever asks for them in a process
+        # (instruction instrumentation is switched on lazily); one discarded execution primes it
+        _execute(a, b, cfg, first, gran, [], tables)
     # bound 0: thread `first` runs to completion, then the other
     out, steps, by = run([], check_det=True)
+    if min(by) == 0:
+        raise core.HarnessFault("a thread executed no scheduling point at %s granularity: tracing is not active" % gran)
     hist["bound0"] = hist.get("bound0", 0) + 1
     n_first = by[first]
     samples.append(dict(pair=[a, b], memo=cfg, first=first, granularity=gran, steps_first_thread=n_first, steps_total=steps, schedule="switch points p = %d mod %d" % (k, K)))
